@@ -178,21 +178,24 @@ def step_area(pos, neg, ep, en, sc, lower, upper):
     N = len(neg) + en
     items = [(float(p), 1) for p in pos] + [(float(q), 0) for q in neg]
     items.sort(key=lambda z: z[0], reverse=(sc == "pos"))
-    seq = [1] * ep + [z[1] for z in items] + [0] * en
+    # runs (label, multiplicity): the easy samples are runs of any length (millions), never materialised
+    runs = [(1, ep)] + [(z[1], 1) for z in items] + [(0, en)]
     x = Fraction(0)
     y = Fraction(0)
     area = Fraction(0)
     lo = Fraction(lower)
     up = Fraction(upper)
-    for lab in seq:
+    for lab, cnt in runs:
+        if cnt == 0:
+            continue
         if lab == 1:
-            y += Fraction(1, P)
+            y += Fraction(cnt, P)
         else:
             a = max(x, lo)
-            b = min(x + Fraction(1, N), up)
+            b = min(x + Fraction(cnt, N), up)
             if b > a:
                 area += (b - a) * y
-            x += Fraction(1, N)
+            x += Fraction(cnt, N)
     return area
 
 
